@@ -638,7 +638,7 @@ class SimFS(object):
                 raise exc(getattr(errno, name), "simulated " + name, path)
             self.read_open_fault = (left - 1, name)
         # a special file (procfs / FUSE style): stat() says 0 bytes, reading delivers the content
-        path = self.special.get(path, path)
+        path = self.special.get(os.fspath(path), path)
         real = builtins.open(path, mode, *a, **k)
         if "r" in mode and "b" not in mode:
             return _Reader(self, real, path)
